@@ -329,6 +329,10 @@ type SuccessExit struct {
 	Ret *ssa.Return
 	Via *ssa.Call // non-nil: the result is this call's result (tail call); success is conditional on it
 	Phi bool
+	// Facts: what holds when this exit delivers success: the must-facts at the return, plus, for a
+	// non-constant result v, `v == nil` and (tail call of a helper of this package) what that helper
+	// guarantees whenever it returns nil.
+	Facts FactSet
 }
 
 // successExits returns the returns of fn whose result #idx may be nil (error deciders).
@@ -345,11 +349,18 @@ func successExits(fl *Flow, idx int) []SuccessExit {
 			continue
 		}
 		if isNilConst(v) {
-			out = append(out, SuccessExit{Ret: r})
+			out = append(out, SuccessExit{Ret: r, Facts: fl.At(r)})
 			continue
 		}
 		key := fl.K.Key(v)
 		facts := fl.At(r)
+		okFacts := facts.clone()
+		if okFacts != nil && types.Identical(v.Type(), types.Universe.Lookup("error").Type()) {
+			okFacts[eqFact(key, "nil")] = true
+			for _, f := range fl.summaryFacts(v, "nil") {
+				okFacts[f] = true
+			}
+		}
 		if facts[Fact{"!=", minStr(key, "nil"), maxStr(key, "nil")}] {
 			continue
 		}
@@ -364,7 +375,7 @@ func successExits(fl *Flow, idx int) []SuccessExit {
 			if all {
 				continue
 			}
-			out = append(out, SuccessExit{Ret: r, Phi: true})
+			out = append(out, SuccessExit{Ret: r, Phi: true, Facts: okFacts})
 			continue
 		}
 		var via *ssa.Call
@@ -374,7 +385,7 @@ func successExits(fl *Flow, idx int) []SuccessExit {
 		case *ssa.Extract:
 			via, _ = x.Tuple.(*ssa.Call)
 		}
-		out = append(out, SuccessExit{Ret: r, Via: via})
+		out = append(out, SuccessExit{Ret: r, Via: via, Facts: okFacts})
 	}
 	return out
 }
@@ -491,6 +502,15 @@ func retValue(r *ssa.Return, idx int) ssa.Value {
 type Leaf struct {
 	Val   ssa.Value
 	Facts FactSet
+	Key   string // set when the definition lies in a helper: the key re-expressed in the user's terms
+}
+
+// KeyIn returns the structural key of the leaf in the terms of fl's function.
+func (lf Leaf) KeyIn(fl *Flow) string {
+	if lf.Key != "" {
+		return lf.Key
+	}
+	return fl.K.Key(lf.Val)
 }
 
 // leaves expands phis: every non-phi definition that can reach v at instruction `at`,
@@ -543,9 +563,141 @@ func leaves(fl *Flow, v ssa.Value, at ssa.Instruction) []Leaf {
 				}
 			}
 		}
-		out = append(out, Leaf{v, facts})
+		// result of a helper of the same package: the values the helper returns (on the returns
+		// compatible with what the caller knows about the helper's other results)
+		if hl := helperResultLeaves(fl, v, facts); hl != nil {
+			out = append(out, hl...)
+			return
+		}
+		out = append(out, Leaf{Val: v, Facts: facts})
 	}
 	rec(v, fl.At(at))
+	return out
+}
+
+var leafDepth int
+
+// leafStops: functions whose results are to be taken as they are (the anchors a rule talks about),
+// not expanded into what they return. Set by the rule around its use of leaves().
+var leafStops = map[*ssa.Function]bool{}
+
+func withLeafStops(f func(), fns ...*ssa.Function) {
+	old := leafStops
+	leafStops = map[*ssa.Function]bool{}
+	for _, fn := range fns {
+		if fn != nil {
+			leafStops[fn] = true
+		}
+	}
+	defer func() { leafStops = old }()
+	f()
+}
+
+func helperResultLeaves(fl *Flow, v ssa.Value, facts FactSet) []Leaf {
+	var call *ssa.Call
+	idx := 0
+	switch x := v.(type) {
+	case *ssa.Call:
+		call = x
+	case *ssa.Extract:
+		c, ok := x.Tuple.(*ssa.Call)
+		if !ok {
+			return nil
+		}
+		call, idx = c, x.Index
+	default:
+		return nil
+	}
+	cal := call.Call.StaticCallee()
+	if cal == nil || cal == fl.Fn || cal.Blocks == nil || cal.Synthetic != "" || funcPkgPath(cal) != funcPkgPath(fl.Fn) || !inModule(funcPkgPath(cal)) || leafDepth > 2 {
+		return nil
+	}
+	if getterLike(cal) || leafStops[cal] {
+		return nil
+	}
+	nres := cal.Signature.Results().Len()
+	if idx >= nres {
+		return nil
+	}
+	args := make([]string, len(call.Call.Args))
+	for i, a := range call.Call.Args {
+		args[i] = fl.K.Key(a)
+	}
+	tag := "@~" + cal.Name() + ":b${1}i${2}"
+	subst := func(k string) string {
+		k = localIDRe.ReplaceAllString(k, tag)
+		return paramRe.ReplaceAllStringFunc(k, func(m string) string {
+			i := 0
+			for _, ch := range m[1:] {
+				i = i*10 + int(ch-'0')
+			}
+			if i < len(args) {
+				return args[i]
+			}
+			return m
+		})
+	}
+	cfl := NewFlow(fl.P, cal)
+	ck := fl.K.Key(call)
+	var out []Leaf
+	for _, r := range returnsOf(cal) {
+		if !cfl.Reachable(r.Block()) || len(r.Results) != nres {
+			continue
+		}
+		// skip returns that contradict what the caller knows about this and the other results
+		skip := false
+		selfKey := ck
+		if nres > 1 {
+			selfKey = ck + "#" + itoa(idx)
+		}
+		if isNilConst(retValue(r, idx)) && facts[neqFact(selfKey, "nil")] {
+			continue
+		}
+		for j := 0; j < nres; j++ {
+			if j == idx {
+				continue
+			}
+			rk := ck
+			if nres > 1 {
+				rk = ck + "#" + itoa(j)
+			}
+			rv := retValue(r, j)
+			switch {
+			case isBoolConst(rv, false) && facts[Fact{"true", rk, ""}], isBoolConst(rv, true) && facts[Fact{"false", rk, ""}]:
+				skip = true
+			case isNilConst(rv) && facts[neqFact(rk, "nil")], knownNonNilError(rv) && facts[eqFact(rk, "nil")]:
+				skip = true
+			}
+		}
+		if skip {
+			continue
+		}
+		leafDepth++
+		inner := leaves(cfl, retValue(r, idx), r)
+		leafDepth--
+		for _, lf := range inner {
+			m := facts.clone()
+			for f := range lf.Facts {
+				g := Fact{f.Op, subst(f.L), ""}
+				if f.R != "" {
+					g.R = subst(f.R)
+				}
+				if (g.Op == "==" || g.Op == "!=") && g.L > g.R {
+					g.L, g.R = g.R, g.L
+				}
+				m[g] = true
+			}
+			lk := subst(lf.KeyIn(cfl))
+			// what the caller knows about the result holds for the value that is the result
+			if facts[neqFact(selfKey, "nil")] {
+				m[neqFact(lk, "nil")] = true
+			}
+			if facts[eqFact(selfKey, "nil")] {
+				m[eqFact(lk, "nil")] = true
+			}
+			out = append(out, Leaf{Val: lf.Val, Facts: m, Key: lk})
+		}
+	}
 	return out
 }
 
@@ -575,4 +727,90 @@ func errorSentinel(g *ssa.Global) bool {
 		}
 	}
 	return n == 1 && okInit
+}
+
+// helperClosure returns fn followed by the functions of fn's own package that it reaches through
+// static calls (transitively, at most depth levels): the places to which a maintainer may move a
+// part of fn's body by "extract function". Rules that look for a construct "in fn" look here.
+func helperClosure(p *Prog, fn *ssa.Function, depth int) []*ssa.Function {
+	out := []*ssa.Function{fn}
+	seen := map[*ssa.Function]bool{fn: true}
+	frontier := []*ssa.Function{fn}
+	for d := 0; d < depth; d++ {
+		var next []*ssa.Function
+		for _, f := range frontier {
+			eachInstr(f, func(in ssa.Instruction) {
+				ci, ok := in.(ssa.CallInstruction)
+				if !ok {
+					return
+				}
+				cal := ci.Common().StaticCallee()
+				if cal == nil || seen[cal] || cal.Blocks == nil || cal.Synthetic != "" || funcPkgPath(cal) != funcPkgPath(fn) {
+					return
+				}
+				seen[cal] = true
+				out = append(out, cal)
+				next = append(next, cal)
+			})
+		}
+		frontier = next
+	}
+	return out
+}
+
+// helperVerdictImplies: facts contain `false(h(...))` (want=false) or `true(h(...))` (want=true)
+// for a call in fl.Fn of a boolean helper h of the same package, and every exit of h that
+// delivers that verdict satisfies pred on h's own must-facts (recursively through further
+// helpers). It expresses "the helper said no only because <pred>", a disjunction over the
+// helper's exits that a must-fact summary cannot carry.
+func helperVerdictImplies(fl *Flow, facts FactSet, want bool, pred func(*Flow, FactSet) bool, depth int) bool {
+	if depth > 2 {
+		return false
+	}
+	op := map[bool]string{true: "true", false: "false"}[want]
+	found := false
+	eachInstr(fl.Fn, func(in ssa.Instruction) {
+		call, ok := in.(*ssa.Call)
+		if !ok || found {
+			return
+		}
+		cal := call.Call.StaticCallee()
+		if cal == nil || cal == fl.Fn || cal.Blocks == nil || cal.Synthetic != "" || funcPkgPath(cal) != funcPkgPath(fl.Fn) {
+			return
+		}
+		res := cal.Signature.Results()
+		if res.Len() != 1 || !types.Identical(res.At(0).Type(), types.Typ[types.Bool]) {
+			return
+		}
+		if !facts[Fact{op, fl.K.Key(call), ""}] {
+			return
+		}
+		cfl := NewFlow(fl.P, cal)
+		all, n := true, 0
+		for _, r := range returnsOf(cal) {
+			if !cfl.Reachable(r.Block()) {
+				continue
+			}
+			v := retValue(r, 0)
+			if isBoolConst(v, !want) {
+				continue
+			}
+			n++
+			fs := cfl.At(r)
+			if !isBoolConst(v, want) {
+				var extra []Fact
+				cfl.decompose(v, want, &extra)
+				for _, f := range extra {
+					fs[f] = true
+				}
+			}
+			if !(pred(cfl, fs) || helperVerdictImplies(cfl, fs, want, pred, depth+1)) {
+				all = false
+			}
+		}
+		if all && n > 0 {
+			found = true
+		}
+	})
+	return found
 }
